@@ -172,20 +172,22 @@ def audit_assumptions(module, theorems, pins=None):
 _harness_built = {}
 
 
-def cargo_build(profile="debug", timeout=1500):
-    if profile in _harness_built:
-        return _harness_built[profile]
-    lock_src = os.path.join(REPO, "Cargo.lock")
-    cmd = ["cargo", "build", "--offline", "--quiet"] + (["--release"] if profile == "release" else [])
+def cargo_build(binname, profile="debug", timeout=1500):
+    """Build one harness binary (src/bin/<binname>.rs) against /repo's current working tree."""
+    key = (binname, profile)
+    if key in _harness_built:
+        return _harness_built[key]
+    cmd = ["cargo", "build", "--offline", "--quiet", "--bin", binname] + (["--release"] if profile == "release" else [])
     rc, out, dt = sh(cmd, cwd=HARNESS, timeout=timeout, env={"CARGO_NET_OFFLINE": "true"})
-    binp = os.path.join(BUILD, "cargo", profile, "h2verif-harness")
+    binp = os.path.join(BUILD, "cargo", profile, binname)
     res = (rc == 0 and os.path.exists(binp), binp, out)
-    _harness_built[profile] = res
+    _harness_built[key] = res
     return res
 
 
-def run_harness(args, profile="debug", timeout=600, input=None):
-    ok, binp, log = cargo_build(profile)
+def run_harness(binname, args, profile="debug", timeout=600, input=None):
+    """Returns (rc, stdout+stderr).  Raises HarnessBuildError when the binary does not build."""
+    ok, binp, log = cargo_build(binname, profile)
     if not ok:
         raise HarnessBuildError(log)
     rc, out, dt = sh([binp] + [str(a) for a in args], timeout=timeout, input=input,
